@@ -103,6 +103,59 @@ where
     }
 }
 
+/// A clone of an iterator, taken fresh or in mid-search, is an independent
+/// iterator in the same state: the original (advanced in turns with its
+/// clone) still yields what it yields alone, the clone yields the same
+/// remainder, and a clone that outlives its original does too.
+pub fn clone_midway<I, T>(o: &mut CaseOut, what: &str, mk: impl Fn() -> I)
+where
+    I: Iterator<Item = T> + Clone,
+    T: Ord + Clone + std::fmt::Debug,
+{
+    let v: Vec<T> = mk().take(100_000).collect();
+    let n = v.len();
+    if n > 4096 {
+        return;
+    }
+    let mut ks = vec![0usize, 1.min(n), n / 2];
+    ks.dedup();
+    for k in ks {
+        let mut a = mk();
+        let mut va: Vec<T> = Vec::new();
+        for _ in 0..k {
+            if let Some(x) = a.next() {
+                va.push(x);
+            }
+        }
+        let mut b = a.clone();
+        let mut vb = va.clone();
+        let (mut da, mut db) = (false, false);
+        let mut turn = 0usize;
+        while !(da && db) && va.len() + vb.len() <= 2 * n + 8 {
+            let (it, out, done) = if turn % 3 == 0 { (&mut b, &mut vb, &mut db) } else { (&mut a, &mut va, &mut da) };
+            if !*done {
+                match it.next() {
+                    Some(x) => out.push(x),
+                    None => *done = true,
+                }
+            }
+            turn += 1;
+        }
+        o.check(va == v, &format!("{what}:iterator-disturbed-by-a-live-clone-of-it"), || crate::ctx::clip(&format!("alone {v:?}; with a clone taken after {k} items {va:?}")));
+        o.check(vb == v, &format!("{what}:clone-taken-in-mid-search-does-not-continue-the-search"), || crate::ctx::clip(&format!("alone {v:?}; clone taken after {k} items continues to {vb:?}")));
+        let c = {
+            let mut a = mk();
+            for _ in 0..k {
+                let _ = a.next();
+            }
+            a.clone()
+        };
+        let mut vc: Vec<T> = v[..k.min(n)].to_vec();
+        vc.extend(c.take(n + 8));
+        o.check(vc == v, &format!("{what}:clone-that-outlives-its-original-differs"), || crate::ctx::clip(&format!("alone {v:?}; clone taken after {k} items, original dropped: {vc:?}")));
+    }
+}
+
 fn strictly_ascending<T: Ord>(xs: &[T]) -> bool {
     xs.windows(2).all(|p| p[0] < p[1])
 }
